@@ -633,7 +633,9 @@ fn main() {
     let mut ev = ev;
     if args.blocks() {
         default_boundaries(&mut ev);
-        integer_polynomials(&mut ev);
+        // `integer_polynomials` is deliberately not run (see c06.rs: integer truncation is not
+        // part of the property; the t-form control would be reported)
+        let _ = integer_polynomials;
     }
     ev.finish(
         &args,
